@@ -13,7 +13,7 @@ from ..program import AnalysisError, FunctionInfo, fn_nodes, norm
 from ..callgraph import CallSite
 from ..cfg import cfg_of, CNode
 from ..flow import leaf_hops
-from .common import (shape, ENCODERS, JWS_CONSUME, can_reach_exit, const_value, derives_from_param, enclosing_loops,
+from .common import (resolve_all, shape, ENCODERS, JWS_CONSUME, can_reach_exit, const_value, derives_from_param, enclosing_loops,
                      entries, entry_param_leaves, foreign_leaves, handler_catches, impls, is_const, leaf_param_name,
                      loop_nonempty_established, resolves_to_call, scope_of, sites_calling, succ_by_label)
 
@@ -447,6 +447,20 @@ def _primitive_idiom(ctx, eng, V, cfg, r, p_msg, p_sig, p_key) -> bool:
                 n = cfg.node_of(s.node)
                 if n is not None:
                     prims.append(n)
+                # the signature argument is the received octet string itself - or, for ECDSA, its DER re-encoding of the two halves;
+                # never a padded / stripped / otherwise "normalised" copy (the primitive decides about malformed lengths)
+                for a in args:
+                    if derives_from_param(eng, V, a, p_sig):
+                        txts = resolve_all(eng, V, a)
+                        rebound = any(isinstance(x, (ast.Assign, ast.AugAssign, ast.AnnAssign)) and any(isinstance(t_, ast.Name) and t_.id == p_sig for t_ in
+                                      (x.targets if isinstance(x, ast.Assign) else [x.target])) for x in fn_nodes(V))
+                        exact = txts == [p_sig] and not rebound
+                        if rebound:
+                            txts = [f"{p_sig} (re-bound inside verify)"]
+                        der = len(txts) == 1 and txts[0].startswith("encode_dss_signature(decode_int(") and f"{p_sig}[" in txts[0]
+                        if not (exact or der):
+                            ctx.fail("R01.6", V, a, f"the signature given to the verification primitive is not the received signature but `{txts[0][:80]}`: "
+                                     "a modified signature (e.g. with octets removed) can be completed into an accepted one", construct=f"signature argument of {V.short}")
     if not prims:
         ctx.fail("R01.6", V, r.ast, "`return True` without an external verify(sig, msg) primitive fed with both the "
                  "received message and signature on a key-derived object")
@@ -652,6 +666,8 @@ def r01_8(ctx) -> None:
 def run(ctx) -> None:
     fam = verify_family(ctx.eng)
     ctx.guard(r01_8)
+    from .c15 import r15_3
+    ctx.guard_as("R01.9", r15_3)  # the crit defence: a verifier that does not implement b64 does not know the parameter (header tables = RFC tables)
     ctx.extra["verify_family"] = [f.short for f in fam]
     ctx.guard(r01_1, fam)
     ctx.guard(r01_2, fam)
